@@ -215,6 +215,9 @@ def run(ctx):
             how = 'torn-write' if torn else ('crash-after-rename' if isinstance(k, tuple) else 'crash')
             findings.append((f'{kind}:{phase}:{fault or "ok"}:{how}:{cls}', text))
     ctx.extra['real_crash_points_with_bad_outcome'] = real_bad
+    # ---- fault SEQUENCES: the process that recovers dies too (recovery protocols recorded on the crashed directories)
+    from .. import double_faults
+    double_faults.run(ctx, recs, work, findings, _judge, sample_every=(5 if quick else 1))
     # ---- an operation that FAILS (OSError) instead of the process dying
     ojobs = []
     for name, (kind, phase, fault, pre, rec, aops) in recs.items():
